@@ -46,48 +46,24 @@ theorem run_idle (m : Machine σ α β) (hs : m.start.subscribe = []) (scripts :
 
 /-! ### ZipAll -/
 
-theorem zipAll_allHot (n : Nat) : AllHot (zipAllM (α := α) n .complete) where
-  start_subs := rfl
-  step_subs := zipStep_subs n
-  hot := rfl
-  start_gated := rfl
-  step_gated := zipStep_gated n
-
-/-- what ZipAll does: as soon as the outer source has completed, the destination is completed —
-    whatever the inner sources say afterwards -/
-theorem zipAll_out (n : Nat) (outer : OuterEnd) (scripts : List (List (Ev α))) (hlen : scripts.length ≤ n) (order : List Nat) :
-    (run (zipAllM n outer) scripts order).out = Spec.outerEmits outer := by
+/-- **ZipAll = Spec.zipAll**, for every number of inner sources, every ending of the outer source,
+    every tuple of scripts and every interleaving (in full since the fix 655488e: the destination is
+    no longer completed when the outer source completes while inner sources exist). -/
+theorem zipAll_spec (n : Nat) (outer : OuterEnd) (scripts : List (List (Ev α))) (hlen : scripts.length ≤ n)
+    (order : List Nat) :
+    (run (zipAllM n outer) scripts order).out = Spec.zipAll n outer (arrivals (scriptsFn scripts) order) := by
   cases outer with
   | never => exact (run_idle (zipAllM n .never) rfl scripts order).1
   | error e => exact (run_idle (zipAllM n (.error e)) rfl scripts order).1
   | complete =>
-    have hlen' : scripts.length ≤ (zipAllM (α := α) n .complete).n := hlen
-    rw [run_out_abs _ (zipAll_allHot n) scripts hlen' order]
-    unfold Machine.abs
-    rw [abs_stopped_out _ _ _ rfl]
-    rfl
-
-/-- … and every inner source is released -/
-theorem zipAll_released (n : Nat) (scripts : List (List (Ev α))) (hlen : scripts.length ≤ n) (order : List Nat) (j : Nat) :
-    (run (zipAllM n .complete) scripts order).status j ≠ .live := by
-  have hlen' : scripts.length ≤ (zipAllM (α := α) n .complete).n := hlen
-  apply run_released _ (zipAll_allHot n) scripts hlen' order
-  rw [zipAll_out n .complete scripts hlen order]
-  rfl
-
-/-- **ZipAll = Spec.zipAll** where the outer source does not complete, or has no inner sources.
-    Full statement (false on the pinned tree, see `zipAll_outer_complete_witness`): for every `outer`. -/
-theorem zipAll_spec_partial (n : Nat) (outer : OuterEnd) (scripts : List (List (Ev α))) (hlen : scripts.length ≤ n)
-    (order : List Nat) (hk : outer ≠ .complete ∨ n = 0) :
-    (run (zipAllM n outer) scripts order).out = Spec.zipAll n outer (arrivals (scriptsFn scripts) order) := by
-  rw [zipAll_out n outer scripts hlen order]
-  cases outer with
-  | never => rfl
-  | error e => rfl
-  | complete =>
-    rcases hk with h | h
-    · exact absurd rfl h
-    · subst h; rfl
+    by_cases hn : n = 0
+    · subst hn
+      have : (zipAllM (α := α) 0 .complete).start.subscribe = [] := rfl
+      exact (run_idle (zipAllM 0 .complete) this scripts order).1
+    · have hm : zipAllM (α := α) n .complete = zipM n := by
+        simp [zipAllM, zipM, hn]
+      rw [hm, zip_spec n (by omega) scripts hlen order]
+      simp [Spec.zipAll, hn]
 
 /-! ### CombineLatestAll -/
 
